@@ -14,6 +14,33 @@ pub fn run_fv<T: FromVariant + Canon>(v: &syn::Variant) -> String {
 pub fn run_ff<T: FromField + Canon>(f: &syn::Field) -> String {
     answer(catch_unwind(AssertUnwindSafe(|| T::from_field(f))))
 }
+pub fn run_ft<T: darling::FromTypeParam + Canon>(t: &syn::TypeParam) -> String {
+    answer(catch_unwind(AssertUnwindSafe(|| T::from_type_param(t))))
+}
+pub fn run_fa<T: darling::FromAttributes + Canon>(a: &[syn::Attribute]) -> String {
+    answer(catch_unwind(AssertUnwindSafe(|| T::from_attributes(a))))
+}
+
+pub enum OuterRun {
+    Fdi(fn(&syn::DeriveInput) -> String),
+    Ff(fn(&syn::Field) -> String),
+    Fv(fn(&syn::Variant) -> String),
+    Ft(fn(&syn::TypeParam) -> String),
+    Fa(fn(&[syn::Attribute]) -> String),
+}
+
+pub struct OuterInfo {
+    pub base: RecvInfo,
+    pub kind: &'static str,
+    pub attr_names: &'static [&'static str],
+    pub from_ident: bool,
+}
+
+pub struct OuterEntry {
+    pub info: fn() -> OuterInfo,
+    pub run: OuterRun,
+    pub vals: fn(&str) -> Vec<(String, crate::sx::Sx)>,
+}
 
 /// every `struct` / `enum` item of a corpus source file, by name, parsed from the very text that
 /// is compiled — the model derives everything from this declaration
